@@ -275,9 +275,8 @@ func (c *Ctx) stateFuncs() map[string]*ast.FuncDecl {
 		if !ok || f.Pkg() == nil || f.Pkg().Path() != bclPath || fd.Body == nil {
 			continue
 		}
-		sig := f.Type().(*types.Signature)
-		if sig.Recv() == nil && types.Identical(sig, scheme.sig) {
-			out[funcName(f)] = fd
+		if scheme.isState(f) {
+			out[stateName(f)] = fd
 		}
 	}
 	return out
